@@ -1065,45 +1065,100 @@ def _r5_argsort(ctx: Ctx, mod, fi: FnInfo) -> None:
             and call_name(s.value) == "append" and u(s.value.func.value) == ACC]
     if len(accs) != 1:
         raise Undecided(f"{MD}:{q}: expected one append to `{ACC}` per dimension")
-    R = accs[0].args[0]
+    R0 = accs[0].args[0]
+    R = R0
     if isinstance(R, ast.Name):
         R = _resolve_in(outer.body, R.id) or R
     reason = None
-    if isinstance(R, ast.Subscript):
-        base = _strip_array(R.value)
-        sl = R.slice
+
+    def classify_perm(sl: ast.expr, depth: int = 0):
+        """-> (kind, key list, reason): kind 'sort' = ascending argsort of the key list, 'inverse' = its inverse
+        permutation (argsort of the argsort)."""
+        why = None
         if isinstance(sl, ast.Name):
             sl = _resolve_in(outer.body, sl.id) or sl
+        if isinstance(sl, ast.Subscript) and u(sl.slice) == "::-1":
+            why = "ids sorted in descending order"
+            sl = sl.value
+        if not (isinstance(sl, ast.Call) and call_name(sl) == "argsort" and sl.args):
+            raise Undecided(f"{MD}:{q}: positions are not permuted by np.argsort(...): `{u(sl)[:60]}`")
+        arg = _strip_array(sl.args[0])
+        inner = arg
+        if isinstance(inner, ast.Name) and inner.id not in apps:
+            inner = _resolve_in(outer.body, inner.id) or inner
+        if isinstance(inner, ast.Call) and call_name(inner) == "argsort" and depth < 2:
+            k, b, w = classify_perm(inner, depth + 1)
+            return ("inverse" if k == "sort" else "sort"), b, (why or w)
+        if isinstance(arg, ast.UnaryOp) and isinstance(arg.op, ast.USub):
+            why = "ids negated before argsort (descending)"
+        elif isinstance(arg, ast.Subscript) and u(arg.slice) == "::-1":
+            why = "id list reversed before argsort"
+        elif not (isinstance(arg, ast.Name) and arg.id in apps):
+            raise Undecided(f"{MD}:{q}: argsort argument `{u(arg)}` is not the key list filled under the selection")
+        names = [n.id for n in ast.walk(arg) if isinstance(n, ast.Name) and n.id in apps]
+        if len(names) != 1:
+            raise Undecided(f"{MD}:{q}: argsort argument `{u(arg)}` not recognised")
+        return "sort", names[0], why
+
+    def positions_of(e: ast.expr) -> ast.expr:
+        e = _strip_array(e)
+        for _ in range(3):
+            if isinstance(e, ast.Name) and e.id not in apps:
+                r = _resolve_in(outer.body, e.id)
+                if r is None:
+                    break
+                e = _strip_array(r)
+        return e
+
+    # np.take(positions, perm) / positions.take(perm) is the gather positions[perm]
+    if isinstance(R, ast.Call) and call_name(R) == "take":
+        if isinstance(R.func, ast.Attribute) and u(R.func.value) not in ("np", "numpy") and len(R.args) == 1:
+            R = ast.Subscript(value=R.func.value, slice=R.args[0], ctx=ast.Load())
+        elif len(R.args) == 2:
+            R = ast.Subscript(value=R.args[0], slice=R.args[1], ctx=ast.Load())
+
+    FRESH = ("empty", "zeros", "empty_like", "zeros_like", "full", "ones")
+    scatters = []
+    if isinstance(R0, ast.Name):
+        for st_ in outer.body:
+            if isinstance(st_, ast.Assign) and len(st_.targets) == 1 and isinstance(st_.targets[0], ast.Subscript) \
+                    and isinstance(st_.targets[0].value, ast.Name) and st_.targets[0].value.id == R0.id:
+                scatters.append(st_)
+    if isinstance(R, ast.Subscript):
+        # gather: positions[perm]
+        base = positions_of(R.value)
         if not (isinstance(base, ast.Name) and base.id in apps):
             raise Undecided(f"{MD}:{q}: permuted array `{u(base)}` is not one of the lists filled under the selection")
         A = base.id
-        if isinstance(sl, ast.Subscript) and u(sl.slice) == "::-1":
-            reason = "ids sorted in descending order"
-            sl = sl.value
-        if not (isinstance(sl, ast.Call) and call_name(sl) == "argsort" and sl.args):
-            raise Undecided(f"{MD}:{q}: positions are not permuted by np.argsort(...)")
-        arg = _strip_array(sl.args[0])
-        if isinstance(arg, ast.UnaryOp) and isinstance(arg.op, ast.USub):
-            reason = "ids negated before argsort (descending)"
-        elif isinstance(arg, ast.Subscript) and u(arg.slice) == "::-1":
-            reason = "id list reversed before argsort"
-        elif not (isinstance(arg, ast.Name) and arg.id in apps and arg.id != A):
-            raise Undecided(f"{MD}:{q}: argsort argument `{u(arg)}` is not the key list filled under the selection")
-        if isinstance(arg, ast.Name):
-            B = arg.id
-        else:
-            inner_names = [n.id for n in ast.walk(arg) if isinstance(n, ast.Name) and n.id in apps and n.id != A]
-            if len(inner_names) != 1:
-                raise Undecided(f"{MD}:{q}: argsort argument `{u(arg)}` not recognised")
-            B = inner_names[0]
+        kind, B, reason = classify_perm(R.slice)
+        if kind == "inverse" and reason is None:
+            reason = ("positions gathered through the inverse of the id-sorting permutation (argsort of the argsort); "
+                      "agrees with the sorted order only for self-inverse permutations")
+        form = "gather"
+    elif isinstance(R, ast.Call) and call_name(R) in FRESH and len(scatters) == 1:
+        # scatter: out[perm] = positions
+        st_ = scatters[0]
+        val = positions_of(st_.value)
+        if not (isinstance(val, ast.Name) and val.id in apps):
+            raise Undecided(f"{MD}:{q}: scattered values `{u(val)}` are not one of the lists filled under the selection")
+        A = val.id
+        kind, B, reason = classify_perm(st_.targets[0].slice)
+        if kind == "sort" and reason is None:
+            reason = ("positions scattered through the argsort of the ids (out[argsort(ids)] = positions): that applies the "
+                      "inverse permutation; it equals the sorted order only when the permutation is its own inverse "
+                      "(<= 2 grids of a dimension, or already sorted), not for >= 3 grids stored in a cyclically shifted order")
+        form = "scatter"
     else:
         base = _strip_array(R)
-        if isinstance(base, ast.Name) and base.id in apps and u(apps[base.id]) == ivar:
+        if isinstance(base, ast.Name) and base.id in apps and u(apps[base.id]) == ivar and not scatters:
             reason = "positions appended without sorting by id"
             A = base.id
             B = [k for k in apps if k != A][0]
+            form = "unsorted"
         else:
             raise Undecided(f"{MD}:{q}: appended block `{u(R)}` not recognised")
+    if A == B:
+        raise Undecided(f"{MD}:{q}: positions and keys are the same list `{A}`")
     if u(apps[A]) != ivar:
         raise Undecided(f"{MD}:{q}: the permuted list `{A}` is not filled with the enumerate position `{ivar}`")
     ctx.check("R5", u(apps[B]) == f"{gvar}.id", mod, q, apps[B],
@@ -1112,7 +1167,7 @@ def _r5_argsort(ctx: Ctx, mod, fi: FnInfo) -> None:
               construct=f"sort key within a dimension: {u(apps[B])}", facts={"key": u(apps[B])})
     ctx.check("R5", reason is None, mod, q, accs[0],
               f"within one dimension the positions must be permuted by np.argsort of the ids (ascending): {reason}",
-              construct=f"per-dimension block {u(accs[0].args[0])}", facts={"reason": reason})
+              construct=f"per-dimension block {u(accs[0].args[0])} ({form})", facts={"reason": reason, "form": form})
     ctx.sample({"rule": "R5", "argsort_grids": {"dims": u(it), "select": u(t), "key": u(apps[B]), "block": u(R)}})
 
 
@@ -1149,6 +1204,43 @@ def _r6(ctx: Ctx, mod, infos: dict[str, FnInfo], mutators: set[str]) -> None:
 
 
 # ---------------------------------------------------------------------------------------
+# clean-tree observations (notes only, never findings)
+# ---------------------------------------------------------------------------------------
+
+ORDER_DEPENDENT = ("interfaces", "subdomains", "boundaries", "sort_subdomains", "sort_interfaces", "sort_subdomain_tuple",
+                   "argsort_grids", "subdomain_to_interfaces", "neighboring_subdomains", "interface_to_subdomain_pair")
+
+
+def _observations(ctx: Ctx, infos: dict[str, FnInfo], mutators: set[str]) -> None:
+    # (a) listing/sorting consulted after _subdomain_data already lost a key: argsort_grids reads dim_max() and the
+    #     emptiness of _subdomain_data, so grids above the new dim_max are silently dropped from the listing
+    for name in sorted(mutators):
+        fi = infos[name]
+        dels = [e for e in fi.mutations() if e.d == SD and e.op == "del"]
+        for c in [n for n in walk_local(fi.fn) if isinstance(n, ast.Call) and isinstance(n.func, ast.Attribute)
+                  and u(n.func.value) == "self" and n.func.attr in ORDER_DEPENDENT]:
+            cs = enclosing_stmt(fi.pm, c)
+            hit = [e for e in dels if fi.cfg.reachable(fi.node(e.stmt), fi.node(cs), fi.common_loops(e.stmt, cs))]
+            if hit:
+                ctx.note(f"observation (reported, not armed): {CLS}.{name}: self.{c.func.attr}() is evaluated after "
+                         f"`del self.{SD}[{u(hit[0].key)}]`; argsort_grids sorts only dimensions <= dim_max() of the remaining "
+                         f"subdomains (and asserts an empty argument when none remain), so when `{u(hit[0].key)}` was the only "
+                         f"grid of the highest dimension an interface of that dimension (e.g. a self-interface of "
+                         f"`{u(hit[0].key)}`) is not listed and is left behind in {IF_DATA}/{IF_SD}")
+    # (b) duplicates inside the argument of add_subdomains
+    fi = infos.get("add_subdomains")
+    if fi is not None:
+        param = [a.arg for a in fi.fn.args.args if a.arg != "self"]
+        uniq = any(isinstance(n, ast.Call) and call_name(n) in ("set", "unique", "Counter") for n in walk_local(fi.fn))
+        bg_ins = [e for e in fi.mutations() if e.d == BG_DATA and e.op == "store" and fi.key_loop(
+            next(x for x in fi.mutations() if x.d == SD_BG and x.op == "store")) is not None] if any(
+            x.d == SD_BG and x.op == "store" for x in fi.mutations()) else []
+        if param and bg_ins and not uniq:
+            ctx.note(f"observation (reported, not armed): {CLS}.add_subdomains: the duplicate test compares `{param[0]}` with "
+                     f"the stored subdomains only, not with itself; add_subdomains([A, A]) runs the boundary-grid loop twice "
+                     f"for A: two BoundaryGrid objects enter {BG_DATA}, only the second is reachable through {SD_BG}[A] "
+                     f"(an orphan boundary grid is listed by boundaries())")
+
 
 def run(ctx: Ctx) -> None:
     mod = ctx.repo.module(MD)
@@ -1183,6 +1275,7 @@ def run(ctx: Ctx) -> None:
         raise AnchorError(f"{MD}:{CLS}.argsort_grids missing")
     _r5_argsort(ctx, mod, infos["argsort_grids"])
     _r6(ctx, mod, infos, mutators)
+    _observations(ctx, infos, mutators)
 
     if ctx.tier == "thorough":
         # who-may-write sweep: subscript stores/deletes/reads on the guarded dicts outside the class
@@ -1259,6 +1352,11 @@ MUTANTS = [
        "R5"),
     _m("argsort-ascending-dims", "np.arange(self.dim_max(), -1, -1)", "np.arange(0, self.dim_max() + 1)", "R5"),
     _m("argsort-drops-dim0", "np.arange(self.dim_max(), -1, -1)", "np.arange(self.dim_max(), 0, -1)", "R5"),
+    _m("seed-argsort-scatter",
+       "            sorted_inds_dim: np.ndarray = np.array(inds_in_all_dims, dtype=int)[\n                sort_inds_dim\n            ]\n",
+       "            sorted_inds_dim: np.ndarray = np.empty(len(inds_in_all_dims), dtype=int)\n"
+       "            sorted_inds_dim[sort_inds_dim] = inds_in_all_dims\n", "R5"),
+    _m("argsort-gather-through-inverse", "np.argsort(ids_dim)\n", "np.argsort(np.argsort(ids_dim))\n", "R5"),
     _m("argsort-ids-descending", "np.argsort(ids_dim)\n", "np.argsort(ids_dim)[::-1]\n", "R5"),
     _m("sort-tuple-swapped", "return (subdomains[inds[0]], subdomains[inds[1]])",
        "return (subdomains[inds[1]], subdomains[inds[0]])", "R5"),
